@@ -45,7 +45,7 @@ func genC06(ctx *fw.Ctx) []fw.Case {
 		b := b
 		cases = append(cases, fw.Case{ID: fmt.Sprintf("constexpr/%d", b), Run: func(r *fw.Rec) { c06ConstExprs(r, b, 8) }})
 	}
-	for _, s := range baseSources() {
+	for _, s := range append(baseSources(), corpus.ClangSources(ctx.Thorough())...) {
 		s := s
 		cases = append(cases, fw.Case{ID: "corpus/" + s.ID, Run: func(r *fw.Rec) { c06Corpus(r, s) }})
 	}
